@@ -45,7 +45,7 @@ def affine_costs(rng, absvecs, tied_ok=True):
 
 
 def make_inds(rng, absvecs, vectors=None):
-    from artap.individual import Individual
+    Individual = absx.individual_class(rng)
     costs = affine_costs(rng, absvecs)
     mstyle = rng.randrange(3)
     inds = []
